@@ -104,6 +104,10 @@ def scenario(rng):
         pub.append(("obs", "JOIN #obsown"))
         sc["attempt"] = [("obs", "JOIN " + target)]
         sc["attempt_kind"] = "quota"
+    elif k < 0.45 and variant.startswith("secret"):
+        # the observer asks for the nickname of a member of the secret channel and is refused (433): it is still itself
+        sc["attempt"] = [("obs", "NICK " + members[0])]
+        sc["attempt_kind"] = "nick-taken"
     elif k < 0.5 and not variant.startswith("secret"):
         kind = rng.choice(["key", "invite", "ban"])
         sc["attempt_kind"] = kind
